@@ -105,7 +105,16 @@ def min_image(ctx, vec, rows, ppp):
     n = []
     for k in range(d):
         if ppp[k]:
-            n.append(O.rint(f[k]))
+            nk = O.rint(f[k])
+            n.append(nk)
+            # away from exact half-cell ties (the image of a tie is unspecified and differs between float evaluation orders)
+            if ctx.mode == "sym":
+                half = Fraction(1, 2)
+                c = O.And(O.lt(f[k] - nk, half), O.lt(nk - f[k], half))
+                if not isinstance(c, bool):
+                    ctx.assume(c)
+            else:
+                ctx.assume(abs(f[k] - nk) < 0.5 - 1e-9)
         else:
             n.append(0)
     out = []
